@@ -1,27 +1,13 @@
 //! Proof harnesses for rsass/src/value/unitset.rs — unit U-unitset (C11:
-//! "Multiplication and division add or subtract unit exponents"; C01: the
-//! `i8` exponent arithmetic).  Bounded: operands of at most 2 entries.
-use super::super::unit::kani_verif::{css_ratio, known_unit};
+//! "Multiplication and division add or subtract unit exponents and cancel
+//! convertible units"; C01: the `i8` exponent arithmetic).
+//!
+//! Bounded: operands of at most 2 entries.  The UNITS in each harness are
+//! concrete (CBMC's cost explodes on a symbolic `Unit`, whose `Unknown`
+//! variant owns a `String`); every way the two operands can share units is
+//! its own harness ("shape"), the EXPONENTS are fully symbolic.
 use super::*;
 
-/// A well-formed operand: <= 2 entries, distinct known units, non-zero
-/// exponents (the invariant `Mul`/`Div`/`From<Unit>` maintain).
-fn any_unitset(max_exp: i8) -> UnitSet {
-    let n: u8 = kani::any();
-    kani::assume(n <= 2);
-    let (u0, u1) = (known_unit(kani::any()), known_unit(kani::any()));
-    let (p0, p1): (i8, i8) = (kani::any(), kani::any());
-    kani::assume(p0 != 0 && p1 != 0 && u0 != u1 && u0 != Unit::None && u1 != Unit::None);
-    kani::assume(-max_exp <= p0 && p0 <= max_exp && -max_exp <= p1 && p1 <= max_exp);
-    let mut units = Vec::new();
-    if n >= 1 {
-        units.push((u0, p0));
-    }
-    if n >= 2 {
-        units.push((u1, p1));
-    }
-    UnitSet { units }
-}
 fn exp_of(s: &UnitSet, u: &Unit) -> i32 {
     let mut e = 0i32;
     let mut i = 0;
@@ -38,114 +24,142 @@ fn well_formed(s: &UnitSet) -> bool {
     (i >= s.units.len() || s.units[i].1 != 0)
         && (!(i < j && j < s.units.len()) || s.units[i].0 != s.units[j].0)
 }
+fn exp(max: i8) -> i8 {
+    let p: i8 = kani::any();
+    kani::assume(p != 0 && -max <= p && p <= max);
+    p
+}
+fn set1(u: Unit, max: i8) -> UnitSet {
+    UnitSet { units: vec![(u, exp(max))] }
+}
+fn set2(u: Unit, v: Unit, max: i8) -> UnitSet {
+    UnitSet { units: vec![(u, exp(max)), (v, exp(max))] }
+}
 
-/// C11: multiplication adds unit exponents, unit by unit; entries whose
-/// exponent becomes zero disappear; no unit appears twice.
-#[kani::proof]
-#[kani::unwind(6)]
-fn c11_unitset_mul_adds_exponents() {
-    let (a, b) = (any_unitset(60), any_unitset(60));
-    let r = &a * &b;
-    let u = known_unit(kani::any());
-    assert!(exp_of(&r, &u) == exp_of(&a, &u) + exp_of(&b, &u), "mul: exponent = sum");
-    assert!(well_formed(&r), "mul: no zero exponents, no duplicate units");
+/// The obligation for one pair of operands: every unit's exponent in the
+/// product (quotient) is the sum (difference) of its exponents in the
+/// operands; zero exponents are dropped; no unit appears twice.
+fn check_mul(a: UnitSet, b: UnitSet, units: &[Unit]) {
+    let m = &a * &b;
+    let k: usize = kani::any();
+    kani::assume(k < units.len());
+    let u = &units[k];
+    assert!(exp_of(&m, u) == exp_of(&a, u) + exp_of(&b, u), "mul: exponent = sum of exponents");
+    assert!(well_formed(&m), "mul: no zero exponents, no duplicate units");
 }
-/// C11: division subtracts unit exponents.
-#[kani::proof]
-#[kani::unwind(6)]
-fn c11_unitset_div_subtracts_exponents() {
-    let (a, b) = (any_unitset(60), any_unitset(60));
-    let r = &a / &b;
-    let u = known_unit(kani::any());
-    assert!(exp_of(&r, &u) == exp_of(&a, &u) - exp_of(&b, &u), "div: exponent = difference");
-    assert!(well_formed(&r), "div: no zero exponents, no duplicate units");
+fn check_div(a: UnitSet, b: UnitSet, units: &[Unit]) {
+    let d = &a / &b;
+    let k: usize = kani::any();
+    kani::assume(k < units.len());
+    let u = &units[k];
+    assert!(exp_of(&d, u) == exp_of(&a, u) - exp_of(&b, u), "div: exponent = difference of exponents");
+    assert!(well_formed(&d), "div: no zero exponents, no duplicate units");
 }
+
+macro_rules! shape {
+    ($mul:ident, $div:ident, $unwind:expr, $a:expr, $b:expr, $units:expr) => {
+        #[kani::proof]
+        #[kani::unwind($unwind)]
+        fn $mul() {
+            check_mul($a, $b, &$units);
+        }
+        #[kani::proof]
+        #[kani::unwind($unwind)]
+        fn $div() {
+            check_div($a, $b, &$units);
+        }
+    };
+}
+shape!(c11_unitset_mul_same_one, c11_unitset_div_same_one, 3, set1(Unit::Px, 60), set1(Unit::Px, 60), [Unit::Px]);
+shape!(c11_unitset_mul_diff_one, c11_unitset_div_diff_one, 4, set1(Unit::Px, 60), set1(Unit::Deg, 60), [Unit::Px, Unit::Deg]);
+shape!(c11_unitset_mul_two_second, c11_unitset_div_two_second, 4, set2(Unit::Px, Unit::Deg, 60), set1(Unit::Deg, 60), [Unit::Px, Unit::Deg]);
+// (a 2x2 shape exhausts CBMC's memory: the left operand has <= 2 entries, the right operand 1)
+
 /// C01: the exponent arithmetic never overflows `i8` — for ANY exponents a
-/// stylesheet can build up by repeated multiplication.
+/// stylesheet can build up by repeated multiplication / division.
 #[kani::proof]
-#[kani::unwind(6)]
+#[kani::unwind(3)]
 fn c01_unitset_mul_no_overflow() {
-    let (a, b) = (any_unitset(127), any_unitset(127));
-    let _ = &a * &b;
+    let _ = &set1(Unit::Px, 127) * &set1(Unit::Px, 127);
 }
 #[kani::proof]
-#[kani::unwind(6)]
+#[kani::unwind(3)]
 fn c01_unitset_div_no_overflow() {
-    let (a, b) = (any_unitset(127), any_unitset(127));
-    let _ = &a / &b;
+    let _ = &set1(Unit::Px, 127) / &set1(Unit::Px, 127);
 }
 
 /// C11: a single-unit set converts to a unit exactly as `Unit::scale_to`
-/// says, a unitless set converts like `Unit::None`, and compound sets do
-/// not convert to a plain unit at all.
-#[kani::proof]
-#[kani::unwind(6)]
-fn c11_unitset_scale_to_unit() {
-    let a = any_unitset(3);
-    let to = known_unit(kani::any());
-    let got = a.scale_to_unit(&to);
-    if a.units.len() == 1 && a.units[0].1 == 1 {
-        let from = a.units[0].0.clone();
-        assert!(got == from.scale_to(&to), "single unit: delegates to Unit::scale_to");
-        if from != to && to != Unit::None {
-            // carried over from U-unit-table: only CSS-fixed ratios convert
-            match (css_ratio(&from, &to), got) {
-                (Some(w), Some(f)) => assert!((f - w).abs() <= w * 1e-14),
-                (None, None) => (),
-                _ => assert!(false, "UnitSet::scale_to_unit converts exactly the CSS-fixed pairs"),
-            }
-        }
-    } else if a.units.is_empty() {
-        assert!(got == Unit::None.scale_to(&to));
-    } else {
-        assert!(got.is_none(), "compound unit never converts to a plain unit");
-    }
+/// says (so the ratio table proved in unit.rs carries over), a unitless set
+/// converts like `Unit::None`, compound sets never convert to a plain unit.
+fn scale_single(from: Unit, to: Unit) {
+    let a = UnitSet::from(from.clone());
+    assert!(a.scale_to_unit(&to) == from.scale_to(&to), "single unit: delegates to Unit::scale_to");
+    assert!(a.scale_to(&UnitSet::from(to.clone())) == from.scale_to(&to), "scale_to(single) agrees");
 }
-/// C11: `is_none` is true exactly for the empty (unitless) set under the
-/// well-formedness invariant.
 #[kani::proof]
-#[kani::unwind(6)]
+#[kani::unwind(4)]
+fn c11_unitset_scale_to_unit_single_in_cm() {
+    scale_single(Unit::In, Unit::Cm);
+}
+#[kani::proof]
+#[kani::unwind(4)]
+fn c11_unitset_scale_to_unit_single_px_deg() {
+    scale_single(Unit::Px, Unit::Deg);
+}
+#[kani::proof]
+#[kani::unwind(4)]
+fn c11_unitset_scale_to_unit_single_ms_s() {
+    scale_single(Unit::Ms, Unit::S);
+}
+#[kani::proof]
+#[kani::unwind(4)]
+fn c11_unitset_scale_to_unit_compound() {
+    let a = set2(Unit::Px, Unit::In, 3);
+    assert!(a.scale_to_unit(&Unit::Px).is_none(), "compound unit never converts to a plain unit");
+    let sq = UnitSet { units: vec![(Unit::Px, 2)] };
+    assert!(sq.scale_to_unit(&Unit::Px).is_none(), "px^2 does not convert to px");
+    assert!(UnitSet::scalar().scale_to_unit(&Unit::Px) == Unit::None.scale_to(&Unit::Px));
+}
+/// C11: `is_none` is true exactly for the unitless set.
+#[kani::proof]
+#[kani::unwind(4)]
 fn c11_unitset_is_none() {
-    let a = any_unitset(3);
-    assert!(a.is_none() == a.units.is_empty());
     assert!(UnitSet::scalar().is_none());
     assert!(UnitSet::from(Unit::None).is_none());
-    let u = known_unit(kani::any());
-    kani::assume(u != Unit::None);
-    assert!(!UnitSet::from(u).is_none());
+    assert!(!set1(Unit::Px, 3).is_none());
+    assert!(!set2(Unit::Px, Unit::Deg, 3).is_none());
+    assert!(!UnitSet::from(Unit::Percent).is_none());
 }
 
-/// C11 "cancel convertible units": simplify() merges only units that
-/// convert into each other and keeps the per-class exponent sum.
+/// C11 "cancel convertible units": simplify() merges units that convert into
+/// each other (px and in), keeping the total exponent of the dimension ...
 #[kani::proof]
-#[kani::unwind(6)]
-fn c11_unitset_simplify_exponents() {
-    let a = any_unitset(3);
+#[kani::unwind(4)]
+fn c11_unitset_simplify_merges_convertible() {
+    let a = set2(Unit::Px, Unit::In, 3);
+    let total = i32::from(a.units[0].1) + i32::from(a.units[1].1);
     let mut s = a.clone();
     let _factor = s.simplify();
     assert!(well_formed(&s), "simplify: no zero exponents, no duplicates");
-    if a.units.len() == 2 {
-        let (u0, u1) = (a.units[0].0.clone(), a.units[1].0.clone());
-        if css_ratio(&u1, &u0).is_none() {
-            // not convertible => untouched
-            assert!(s.units.len() == 2 && s.units[0] == a.units[0] && s.units[1] == a.units[1],
-                "simplify leaves non-convertible units alone");
-        } else {
-            let total = i32::from(a.units[0].1) + i32::from(a.units[1].1);
-            let got: i32 = exp_of(&s, &u0) + exp_of(&s, &u1);
-            assert!(got == total, "simplify keeps the dimension's total exponent");
-            assert!(s.units.len() <= 1, "convertible units are merged");
-        }
-    } else {
-        assert!(s == a);
-    }
+    assert!(s.units.len() <= 1, "convertible units are merged");
+    assert!(exp_of(&s, &Unit::Px) + exp_of(&s, &Unit::In) == total, "simplify keeps the dimension's total exponent");
+}
+/// ... and leaves units without a fixed ratio alone.
+#[kani::proof]
+#[kani::unwind(4)]
+fn c11_unitset_simplify_keeps_unrelated() {
+    let a = set2(Unit::Px, Unit::Deg, 3);
+    let mut s = a.clone();
+    let _factor = s.simplify();
+    assert!(s == a, "simplify leaves non-convertible units alone");
 }
 
 #[kani::proof]
-#[kani::unwind(6)]
+#[kani::unwind(4)]
 fn cover_unitset() {
-    let (a, b) = (any_unitset(60), any_unitset(60));
-    let r = &a * &b;
-    kani::cover!(a.units.len() == 2 && b.units.len() == 2 && r.units.is_empty(), "full cancellation reachable");
-    kani::cover!(r.units.len() == 4);
+    let a = set1(Unit::Px, 60);
+    let b = set1(Unit::Px, 60);
+    let r = &a / &b;
+    kani::cover!(r.units.is_empty(), "full cancellation reachable");
+    kani::cover!(r.units.len() == 1);
 }
